@@ -297,7 +297,7 @@ def chunk_model_cells(pq, data, lf, tbl):
     return out, None
 
 
-def run_case(lf, table, scratch, cats=False):
+def run_case(lf, table, scratch, cats=False, kv=False):
     """encode with the spec encoder, read with fastparquet -> dict(outcome, problems, ...)"""
     from harness import fmtlib
     pq = _pq()
@@ -352,7 +352,9 @@ def run_case(lf, table, scratch, cats=False):
             res["problems"].append(("schema", "column %s missing" % l["name"]))
             continue
         s = df[l["name"]]
-        if not cats and str(s.dtype) not in DTYPES[l["tag"]] and not (l["optional"] and str(s.dtype) == "float64" and l["type"] in (1, 2)):
+        if kv and l["tag"] in TS_TAGS + ("date",) and (getattr(s.dtype, "kind", "O") == "M" or hasattr(s.dtype, "tz")):
+            pass      # with application metadata the unit / zone of a datetime column may be the recorded one: kind and width are what the schema implies
+        elif not cats and str(s.dtype) not in DTYPES[l["tag"]] and not (l["optional"] and str(s.dtype) == "float64" and l["type"] in (1, 2)):
             res["problems"].append(("dtype", "column %s (%s): dtype %s, schema implies %s" % (l["name"], l["tag"], s.dtype, "/".join(DTYPES[l["tag"]]))))
         got = fp_cells(s, l)
         exp = table[l["name"]]
@@ -370,6 +372,8 @@ def run_case(lf, table, scratch, cats=False):
         for i, e, g in bad[:2]:
             res["problems"].append(("flba-trailing-nul" if nul else "date-beyond-ns-range" if far else "decode",
                                     "column %s (%s) row %d: file encodes %r, fastparquet returns %r" % (l["name"], l["tag"], i, e, g)))
+    if kv:
+        res["alloc_obs"] = alloc_observations(lf, table, df)
     if res["problems"]:
         res["outcome"] = "differs"
     # model of the chunk reader against what the real reader returned (cell by cell, physical bit patterns)
@@ -391,6 +395,76 @@ def run_case(lf, table, scratch, cats=False):
     res.pop("fp_cells", None)
     res.pop("chunk_model", None)
     return res
+
+
+def alloc_observations(lf, table, df):
+    """for the timestamp columns of a file with a 'pandas' entry: (recorded unit | None, stored tag, stored count, unit of the column
+    the real reader returned, count in that unit) for up to 3 non-NULL cells per column - the input of the Impl/RAlloc.v tie"""
+    import re
+    import numpy as np
+    import pandas as pd
+    rec = {}
+    for k, v in lf.get("kv") or []:
+        if k == "pandas":
+            for c in json.loads(v).get("columns", []):
+                m = re.match(r"datetime64\[(\w+)", c.get("numpy_type") or "")
+                rec[c.get("name")] = m.group(1) if m else None
+    out = []
+    for l in lf["leaves"]:
+        if l["tag"] not in ("ts_ms", "ts_us", "ts_ns") or l["name"] not in df.columns:
+            continue
+        s = df[l["name"]]
+        if isinstance(s.dtype, pd.DatetimeTZDtype):
+            s = s.dt.tz_convert("UTC").dt.tz_localize(None)
+        if getattr(s.dtype, "kind", "O") != "M":
+            continue
+        arr = s.values
+        unit = np.datetime_data(arr.dtype)[0]
+        iv = arr.view("int64")
+        cells = table[l["name"]]
+        if len(cells) != len(iv):
+            continue
+        k = 0
+        for e, g in zip(cells, iv):
+            if e is None:
+                continue
+            sv = e - (1 << 64) if e >> 63 else e
+            if sv == -(1 << 63):
+                continue
+            out.append([rec.get(l["name"]), l["tag"], sv, unit, int(g)])
+            k += 1
+            if k >= 3:
+                break
+    return out
+
+
+def alloc_tie(ctx, obs):
+    """Impl/RAlloc.read_ts (unit from the entry, numpy cast on assignment) evaluated in coqc = unit and count of the column the
+    real reader returned"""
+    U = {"s": "WS", "ms": "WMs", "us": "WUs", "ns": "WNs"}
+    T = {"ts_ms": "TMs", "ts_us": "TUs", "ts_ns": "TNs"}
+    seen, todo = set(), []
+    for o in obs:
+        key = (o[0], o[1], o[2])
+        if key in seen or o[0] not in (None, "s", "ms", "us", "ns"):
+            continue
+        seen.add(key)
+        todo.append(o)
+    todo = todo[:120]
+    if not todo:
+        return
+    req = "From Coq Require Import ZArith.\nFrom Pq Require Import Impl.RConvert Impl.WConvert Impl.RAlloc.\nOpen Scope Z_scope."
+    exprs = ["read_ts %s %s (%d)" % ("None" if o[0] is None else "(Some %s)" % U[o[0]], T[o[1]], o[2]) for o in todo]
+    outs = C.vm_eval(req, exprs, "(wunit * Z)%type", os.path.join(ctx.scratch, "alloc"), tag="alloc")
+    for o, r in zip(todo, outs):
+        try:
+            p = C.parse_coq(r)
+            mu = p[0][0] if isinstance(p[0], tuple) else p[0]
+            model = [{"WS": "s", "WMs": "ms", "WUs": "us", "WNs": "ns"}[mu], int(p[1])]
+        except Exception as e:    # noqa
+            model = ["unparsed", str(r)[:80]]
+        ctx.correspondence("Impl/RAlloc.read_ts (unit recorded by the 'pandas' entry, numpy cast on assignment) = unit and count of the "
+                           "timestamp column the real reader returns", {"recorded": o[0], "stored": o[1], "value": o[2]}, model, [o[3], o[4]])
 
 
 def leaf_tag(l):
@@ -468,7 +542,7 @@ def _job(job):
     tmp = tempfile.mkdtemp(prefix="verif-C03w-", dir=_SCRATCH)
     try:
         try:
-            res = run_case(lf, table, tmp, cats=bool(expect.get("categories")))
+            res = run_case(lf, table, tmp, cats=bool(expect.get("categories")), kv=bool(expect.get("kv")))
         except Exception:   # noqa
             import traceback
             return {"outcome": "harness-error", "err": traceback.format_exc()[-1500:], "problems": []}
@@ -544,6 +618,88 @@ def run_robust(jobs, scratch, nproc=8, stall=120):
     return [allres[i] for i in range(len(jobs))]
 
 
+# wave 3: application metadata of ANOTHER writer.  A foreign file may carry a 'pandas' key-value entry (pyarrow and others
+# write one) whose per-column numpy_type / pandas_type describe the frame the writer started from, not what is stored:
+# timestamps recorded as datetime64[ns] but stored as TIMESTAMP_MILLIS / MICROS (coerce_timestamps, format version 1.0),
+# any unit against any stored unit, arrow's swapped nullable names, time zones, a range-index descriptor, columns not named.
+# The values the file encodes do not depend on that entry (Proofs/EncKVProofs.v: the typed footer view ignores field 5).
+PANDAS_NATURAL = {
+    "bool": ("bool", "bool"), "int32": ("int32", "int32"), "int32c": ("int32", "int32"), "int8": ("int8", "int8"), "int16": ("int16", "int16"),
+    "uint8": ("uint8", "uint8"), "uint16": ("uint16", "uint16"), "uint32": ("uint32", "uint32"), "int64": ("int64", "int64"),
+    "int64c": ("int64", "int64"), "uint64": ("uint64", "uint64"), "date": ("date", "object"), "ts_ms": ("datetime", "datetime64[ns]"),
+    "ts_us": ("datetime", "datetime64[ns]"), "ts_ns": ("datetime", "datetime64[ns]"), "int96": ("datetime", "datetime64[ns]"),
+    "time_ms": ("time", "object"), "time_us": ("time", "object"), "float": ("float32", "float32"), "double": ("float64", "float64"),
+    "bytes": ("bytes", "object"), "flba": ("bytes", "object"), "utf8": ("unicode", "object"), "json": ("unicode", "object"),
+    "decimal": ("decimal", "object"),
+}
+TS_TAGS = ("ts_ms", "ts_us", "ts_ns", "int96")
+
+
+INT_TAGS = ("bool", "int32", "int32c", "int64", "int64c", "int8", "int16", "uint8", "uint16", "uint32", "uint64")
+UNIT_NS = {"s": 10**9, "ms": 10**6, "us": 10**3, "ns": 1}
+STORED_UNIT = {"ts_ms": "ms", "ts_us": "us", "ts_ns": "ns", "int96": "ns"}
+
+
+def _scale_values(lf, table, name, ci, k):
+    """multiply every stored value of INT64 column `ci` by k (two's complement): the column then holds multiples of a coarser unit"""
+    def sc(v):
+        sv = v - (1 << 64) if v >> 63 else v
+        return (sv * k) & M64
+    for rg in lf["rgs"]:
+        for it in rg[ci]["items"]:
+            if "dict" in it:
+                it["vals"] = [sc(v) for v in it["vals"]]
+            elif it["store"][0] == "plain":
+                it["store"][1] = [sc(v) for v in it["store"][1]]
+    table[name] = [None if v is None else sc(v) for v in table[name]]
+
+
+def pandas_meta(rng, lf, mode, nrows, table=None):
+    """the JSON text of a 'pandas' entry for the layout, as a foreign writer would attach it"""
+    cols = []
+    for ci, l in enumerate(lf["leaves"]):
+        pt, nt = PANDAS_NATURAL[l["tag"]]
+        meta = None
+        has_null = table is not None and any(c is None for c in table[l["name"]])
+        if l["tag"] in INT_TAGS and has_null:
+            # a pandas integer / bool column cannot hold a missing value: the frame had a float / object / nullable column
+            ext = "boolean" if l["tag"] == "bool" else nt.replace("uint", "UInt").replace("int", "Int") if nt.startswith("u") else nt.replace("int", "Int")
+            pt, nt = rng.choice([("float64", "float64"), ("object", "object"), (nt, ext), (ext, nt) if False else (ext, ext)])
+            if l["tag"] == "bool" and pt == "float64":
+                pt, nt = "object", "object"
+        if mode == "coarse" and l["tag"] in ("ts_ms", "ts_us", "ts_ns") and table is not None:
+            # the frame had a coarser unit than the file can store (datetime64[s] -> TIMESTAMP_MILLIS ...): multiples are stored
+            su = STORED_UNIT[l["tag"]]
+            coarser = [u for u in ("s", "ms", "us") if UNIT_NS[u] > UNIT_NS[su]]
+            if coarser and all(it.get("dict") is not None or it["store"][0] == "plain" for rg in lf["rgs"] for it in rg[ci]["items"]):
+                u = rng.choice(coarser)
+                k = UNIT_NS[u] // UNIT_NS[su]
+                if all(v is None or abs((v - (1 << 64) if v >> 63 else v) * k) < (1 << 62) for v in table[l["name"]]):
+                    _scale_values(lf, table, l["name"], ci, k)
+                    nt = "datetime64[%s]" % u
+        if l["tag"] in TS_TAGS:
+            if mode in ("unit", "mixed"):
+                # any unit at least as fine as the stored one (pyarrow records datetime64[ns] whatever it stores)
+                su = STORED_UNIT[l["tag"]]
+                nt = "datetime64[%s]" % rng.choice([u for u in ("ms", "us", "ns") if UNIT_NS[u] <= UNIT_NS[su]])
+            if mode in ("tz", "mixed") and rng.random() < 0.7:
+                pt, meta = "datetimetz", {"timezone": rng.choice(["UTC", "Europe/Berlin", "+05:30", "-00:45", "Asia/Kolkata"])}
+        elif mode in ("nullable", "mixed") and not has_null and l["tag"] in ("bool", "int32", "int64", "int8", "int16", "uint8", "uint16", "uint32", "uint64") and rng.random() < 0.7:
+            ext = "boolean" if l["tag"] == "bool" else nt.replace("int", "Int").replace("uInt", "UInt")
+            pt, nt = (nt, ext) if rng.random() < 0.5 else (ext, nt)        # arrow has the two swapped
+        elif l["tag"] == "date" and mode in ("unit", "mixed") and rng.random() < 0.5:
+            pt, nt = "datetime", "datetime64[%s]" % rng.choice(["ms", "ns"])
+        elif l["tag"] == "decimal":
+            meta = {"precision": l.get("precision") or 9, "scale": l.get("scale") or 0}
+        cols.append({"name": l["name"], "field_name": l["name"], "pandas_type": pt, "numpy_type": nt, "metadata": meta})
+    if mode == "partial" and cols:
+        cols = cols[1:] if rng.random() < 0.5 else []
+    doc = {"index_columns": [{"kind": "range", "name": None, "start": 0, "stop": nrows, "step": 1}] if rng.random() < 0.6 else [],
+           "column_indexes": [{"name": None, "field_name": None, "pandas_type": "unicode", "numpy_type": "object", "metadata": {"encoding": "UTF-8"}}],
+           "columns": cols, "creator": {"library": "pyarrow", "version": "14.0.2"}, "pandas_version": "2.1.4"}
+    return json.dumps(doc)
+
+
 def gen_jobs(ctx):
     rng = ctx.rng
     quick = ctx.quick()
@@ -616,6 +772,40 @@ def gen_jobs(ctx):
                                               "nrgs": 1, "rows": rng.choice([1, 9, 40, 65]), "second_dict": False, "v2": v2, "split": "one",
                                               "created_by": "spec-encoder"})
                 jobs.append((lf, table, {"expect": "decode", "stream": "categories", "categories": True}))
+    # 6c. foreign files WITH a 'pandas' key-value entry that agrees / disagrees with the physical schema (units, nullable names,
+    #     zones, columns not named): every reader path (v1 PLAIN, dictionary, v2, DELTA) must return what the file encodes
+    ts_types = [ct for ct in G.COLTYPES if ct[3] in TS_TAGS + ("date",)]
+    int_types = [ct for ct in G.COLTYPES if ct[3] in ("bool", "int32", "int64", "int8", "uint16", "uint64")]
+    for mode in ["agree", "unit", "unit", "coarse", "tz", "nullable", "mixed", "partial"]:
+        for v2 in (False, True):
+            for encs in (["plain"], ["dict"], None):
+                for _ in range(1 if quick else 8):
+                    pool = ts_types if mode in ("unit", "tz", "coarse") else int_types if mode == "nullable" else G.COLTYPES
+                    if mode == "coarse" and not encs:
+                        encs = ["plain", "dict"]
+                    knobs = {"coltype": rng.choice(pool) if rng.random() < 0.8 else None, "v2": v2, "ncols": rng.choice([1, 2]),
+                             "nrgs": rng.choice([1, 2]), "rows": rng.choice([1, 5, 9, 40]),
+                             "created_by": rng.choice(["parquet-cpp-arrow version 14.0.2", "parquet-mr version 1.12.3", "spec-encoder"])}
+                    if encs:
+                        knobs["encs"] = encs
+                    lf, table = G.gen_lfile(rng, knobs)
+                    lf["kv"] = [["pandas", pandas_meta(rng, lf, mode, sum(len(v) for v in list(table.values())[:1]), table)]]
+                    if rng.random() < 0.3:
+                        lf["kv"].append(["ARROW:schema", "AAAA"])
+                    jobs.append((lf, table, {"expect": "decode", "stream": "pandas-metadata", "kv": mode}))
+    # 6d. created_by is just a string: files whose created_by CONTAINS "fastparquet" (another version, another tool naming it)
+    #     in layouts fastparquet itself never writes - index runs of width 8/16/32 that are RLE or mixed, definition levels
+    #     present as several runs / bit-packed while the statistics say null_count = 0 - must decode exactly
+    for w in (8, 16, 32, 8, 16):
+        for v2 in (False, True):
+            for _ in range(1 if quick else 6):
+                add({"coltype": rng.choice([G.COLTYPES[1], G.COLTYPES[10], G.COLTYPES[21]]), "encs": ["dict"], "width": w, "ncols": 1, "nrgs": 1,
+                     "rows": rng.choice([7, 9, 40, 200]), "second_dict": False, "v2": v2, "optional": rng.random() < 0.5,
+                     "created_by": rng.choice(["fastparquet-python version 0.7.1 (build 0)", "other-tool 1.0 (fastparquet compatible)"])},
+                    stream="created-by-fastparquet")
+    for _ in range(16 if quick else 300):
+        add({"created_by": "fastparquet-python version 2024.2.0 (build 0)", "optional": True if rng.random() < 0.7 else None,
+             "width": rng.choice([None, 8, 16])}, stream="created-by-fastparquet")
     # 7. encodings the reader does not implement must be refused
     for enc in (6, 7, 9):
         for v2 in (False, True):
@@ -637,7 +827,8 @@ def classify(lf, res, what):
     return {"stage": what, "err": (res.get("err") or "").split(":")[0], "tags": tags if len(tags) > 1 else tags[0],
             "bp_width": f["max_bp_width"], "delta_width": f["max_delta_width"], "v2_delta_int64": f["v2_delta_int64"],
             "v2_delta_with_nulls": f["v2_delta_with_nulls"], "v1_rle_bool": f["v1_rle_bool"], "v2_rle_bool": f["v2_rle_bool"],
-            "raw": f["raw"], "problem": (res["problems"][0][0] if res["problems"] else None)}
+            "raw": f["raw"], "problem": (res["problems"][0][0] if res["problems"] else None),
+            "created_by_fastparquet": "fastparquet" in (lf.get("created_by") or ""), "pandas_metadata": bool(lf.get("kv"))}
 
 
 def extraction_vs_kernel(ctx, k=6):
@@ -819,6 +1010,9 @@ def run(ctx):
     C.coq_lib()
     ctx.trusted = TRUSTED
     ctx.coq_file(os.path.join(C.COQ, "props", "C03.v"))
+    ctx.coq_file(os.path.join(C.COQ, "props", "C03_kv.v"))
+    ctx.coq_file(os.path.join(C.COQ, "props", "C03_guard.v"))
+    ctx.coq_file(os.path.join(C.COQ, "props", "C03_alloc.v"))
     bad = C.hygiene()
     ctx.obligation("hygiene: no Admitted/Axiom/Parameter/... in coq/", not bad, "; ".join(bad))
     diffs = [d for d in C.pyx_vs_c() if d[0] == "cencoding" or d[0] == "speedups"]
@@ -834,11 +1028,15 @@ def run(ctx):
                 "final run ending mid-group, RLE run longer than needed) / RLE booleans / DELTA_BINARY_PACKED (block 128,256 x miniblocks 1,4,8 "
                 "x delta widths 0..32(56)); definition levels as RLE and bit-packed runs; page boundaries incl. every row; 1..3 row groups; "
                 "null patterns; codecs 0,1,2,4,5,6,7; v1/v2 with is_compressed absent/true/false; dictionary fallback and second dictionary page; "
-                "unsupported encodings 6,7,9 must be refused.  trivial = empty table; distinct = distinct (layout, table)")
+                "unsupported encodings 6,7,9 must be refused; files with a 'pandas' key-value entry of another writer (agreeing, finer / coarser "
+                "recorded datetime unit, arrow's swapped nullable names, zones, range-index descriptor, columns not named) x v1/v2 x PLAIN/dictionary; "
+                "files whose created_by contains 'fastparquet' in layouts fastparquet never writes (created_by is just a string).  "
+                "trivial = empty table; distinct = distinct (layout, table)")
     jobs = gen_jobs(ctx)
     _init()
     results = run_robust(jobs, ctx.scratch)
     digests = {}
+    alloc_tie(ctx, [o for res in results for o in (res.get("alloc_obs") or [])])
     for (lf, table, exp), res in zip(jobs, results):
         if exp.get("file"):
             case = {"expect": exp}
